@@ -95,6 +95,24 @@ theorem C01_skipped_untouched (cfg : Cfg) (hnd : cfg.dryRun = false) (flt : Faul
   obtain ⟨d, _, h2, _⟩ := ep.file m k hk
   exact h2 hs
 
+/-- **`-H`: transferred names of one source inode are names of one destination node.**  With
+    `--hard-links`, after a run that exits 0, any two selected regular files with link count > 1
+    and the same source inode that were both transferred (created *or updated*: since a68466f an
+    update of a later group member re-links it to the first member's destination) hold the very
+    same node — same data (which `C01` shows to be the source's) and same inode. -/
+theorem C01_hardlink_members_share_node (cfg : Cfg) (hnd : cfg.dryRun = false) (hhl : cfg.hardlinks = true)
+    (flt : Faults) (scan : List SEntry) (dst : Map DNode) (n : Nat) (hu : UniqueRels scan)
+    (hdel : cfg.delete = true → ParentClosed scan ∧ dst.get? [] = none)
+    (hok : (runF cfg flt scan dst n).exit = 0)
+    (e e' : SEntry) (he : e ∈ scanFilter cfg scan) (he' : e' ∈ scanFilter cfg scan)
+    (m m' : FileMeta) (k k' : Nat) (hk : e.kind = .file m k) (hk' : e'.kind = .file m' k')
+    (h1 : 1 < k) (h1' : 1 < k') (hi : m.ino = m'.ino)
+    (hs : planFileAct cfg m (dst.get? e.rel) ≠ .skip) (hs' : planFileAct cfg m' (dst.get? e'.rel) ≠ .skip) :
+    (runF cfg flt scan dst n).dst.get? e.rel = (runF cfg flt scan dst n).dst.get? e'.rel := by
+  rw [(runF_of_not_refused (runF_exit_zero hok).1).1]
+  exact run_share hnd flt scan dst n hu hdel hhl hk hk' h1 h1' hi hs hs'
+    (taskOk_of_exit_zero hok (planEntry_mem_plan he)) (taskOk_of_exit_zero hok (planEntry_mem_plan he'))
+
 /-- An existing destination directory at the path of a selected directory is kept (planned as
     `skip`); nothing else can be there after a run that exits 0. -/
 theorem C01_existing_dir_node_kept (cfg : Cfg) (hnd : cfg.dryRun = false) (flt : Faults) (scan : List SEntry)
@@ -213,6 +231,29 @@ example : (run exCfg exScan exDst 1000).dst.get? ["l"] = some (.symlink "d/f") :
   (C01 exCfg rfl noFaults exScan exDst 1000 (by decide) (fun _ => ⟨by decide, by decide⟩)
     (fun _ => exScan_inoConsistent) (by decide)
     ⟨["l"], .symlink "d/f" (.file (exMeta 1 10 5000000000 3)), 3, false⟩ (by decide)).2.2.1 _ _ rfl rfl
+
+/-- `-H` *update*: both names of inode 7 already exist in the destination as two unrelated stale
+    files; `g` (first of the group) is rewritten, `d/h` is re-linked to it — it carries the
+    source's data and is the same node as `g` -/
+def dstH : Map DNode :=
+  (["g"], .file (exMeta 0 20 1 201)) :: (["d", "h"], .file (exMeta 0 20 1 202)) :: exDst
+
+example : (planEntry exCfg dstH ⟨["d", "h"], .file (exMeta 2 20 7000000000 7) 2, 20, false⟩).act = .update := by
+  decide
+
+example : ∃ d, (run exCfg exScan dstH 1000).dst.get? ["d", "h"] = some (.file d) ∧
+    Carries exCfg d (exMeta 2 20 7000000000 7) := by
+  have h := C01 exCfg rfl noFaults exScan dstH 1000 (by decide) (fun _ => ⟨by decide, by decide⟩)
+    (fun _ => exScan_inoConsistent) (by decide)
+    ⟨["d", "h"], .file (exMeta 2 20 7000000000 7) 2, 20, false⟩ (by decide)
+  obtain ⟨d, h1, h2⟩ := h.2.1 _ _ rfl
+  exact ⟨d, h1, h2 (by decide)⟩
+
+example : (run exCfg exScan dstH 1000).dst.get? ["d", "h"] = (run exCfg exScan dstH 1000).dst.get? ["g"] :=
+  C01_hardlink_members_share_node exCfg rfl rfl noFaults exScan dstH 1000 (by decide)
+    (fun _ => ⟨by decide, by decide⟩) (by decide)
+    ⟨["d", "h"], .file (exMeta 2 20 7000000000 7) 2, 20, false⟩ ⟨["g"], .file (exMeta 2 20 7000000000 7) 2, 20, false⟩
+    (by decide) (by decide) _ _ 2 2 rfl rfl (by decide) (by decide) rfl (by decide) (by decide)
 
 /-- the comparison rule on concrete data: 1.999…s apart is up to date, 2 s apart is not -/
 example : planFileAct exCfg (exMeta 1 10 5000000000 3) (some (.file (exMeta 0 10 3000000001 9))) = .skip :=
